@@ -56,6 +56,7 @@ def main():
     ap.add_argument("--workers", type=int, default=8)
     ap.add_argument("--jobs", type=int, default=2)
     ap.add_argument("--seeded", action="store_true")
+    ap.add_argument("--match", help="regular expression on the patch label")
     a = ap.parse_args()
     items = []
     if a.seeded:
@@ -70,6 +71,8 @@ def main():
                 continue
             items.append((pf, os.path.basename(pf).split("-")[0], None))
     all_items = list(items)
+    if a.match:
+        items = [it for it in items if re.search(a.match, it[2] or os.path.basename(it[0]))]
     if a.only:
         items = [it for it in items if it[1] in a.only.split(",")]
     results = []
